@@ -40,6 +40,9 @@ CHECKS = {
  "C03": ("mutation monitor: rule x context matrix of single-edit ill-typed twins of well-typed hosts, decided by the real TypeChecker in-process with span containment of the diagnostic in the offending construct",
          "Every documented static rule of the property is broken once in every statement/expression/declaration context (function and method hosts, nesting to depth 3, k host variations); the twin must be rejected with a diagnostic located inside the edited construct and the host accepted.",
          "The offending construct is the smallest statement/declaration containing the edit; spans are compared on their non-blank extent.", "5/C03"),
+ "C18": ("history checker over recorded client-boundary histories of the real language server (tower-lsp service, JSON-RPC framing, paused tokio time) under enumerated and randomised delay vectors at its await points (cfg incan_verif hook) and client back-pressure, against a sequential last-writer-wins model",
+         "Thousands of burst histories (exhaustive delay vectors for bursts of 2-3 handlers, random for 3-12 messages over 1-3 documents) are executed by the real server; texts are unambiguous per (document, version), so every reply and publish identifies the version it was computed from. Evidence reports the distinct handler store orders actually observed.",
+         "Interleaving granularity = the server's existing await points (handlers are polled cooperatively); liveness is restated as quiescence within 60 virtual seconds.", "5/C18"),
 }
 WIP = "check not built yet in this round (work in progress; see DESIGN.md section 5 for the planned monitor)"
 ALL = ["C%02d" % i for i in range(1, 21)]
